@@ -141,6 +141,61 @@ def vacuous(s):
     return (not s[3]) if s[0] == "C" else all(vacuous(x) for x in s[2])
 
 
+def build_query(m, s):
+    """structure (s_query form) -> BugQuery, for corpus cases and replay"""
+    from pkgcore.bugzilla.enums import Join
+
+    def mk_chart(c):
+        if c[0] == "G":
+            return m.ChartGroup(Join(c[1]), tuple(mk_chart(x) for x in c[2]))
+        return m.Criterion(c[1], c[2], tuple(c[3]), negate=c[4], splittable=c[5])
+
+    return m.BugQuery(simple=tuple((k, tuple(v)) for k, v in s["simple"]),
+                      charts=tuple(mk_chart(c) for c in s["charts"]),
+                      limit=s.get("limit"), offset=s.get("offset"), order=s.get("order"))
+
+
+def load_corpus():
+    from .common import VERIF
+    out = []
+    for f in sorted((VERIF / "corpus" / "C37").glob("*.json")):
+        d = json.loads(f.read_text())
+        for c in d["cases"] if "cases" in d else [d]:
+            out.append(c)
+    return out
+
+
+def observe_batches(q, base, mx):
+    """batches() observed the ways callers use it.  The batch objects are frozen values, so every
+    way must show the same thing:
+      lazy   render each batch when it is yielded (Client.raw_search)
+      kept   list(q.batches(...)) first, render afterwards (tests, len(), handing batches to workers)
+      again  render the kept objects a second time, after a SECOND batches() call on the same query
+      second the second call's batches, kept
+    Returns (kept, problem or None); A and the partition/budget oracle run on `kept`."""
+    ren = lambda b: [[str(k), str(v)] for k, v in b.params()]  # noqa: E731
+    before = s_query(q)
+    lazy = [ren(b) for b in q.batches(base, mx)]
+    objs = list(q.batches(base, mx))
+    kept = [ren(b) for b in objs]
+    second = [ren(b) for b in list(q.batches(base, mx))]
+    again = [ren(b) for b in objs]
+    problem = None
+    for name, other in (("rendered when yielded", lazy), ("a second batches() call", second),
+                        ("the same kept objects rendered again", again)):
+        if other != kept:
+            i = next((j for j in range(min(len(other), len(kept))) if other[j] != kept[j]), min(len(other), len(kept)))
+            problem = ("the batches kept from list(batches()) differ from " + name
+                       + " (a batch changes after the generator is advanced / shares state)",
+                       {"n_batches": [len(kept), len(other)], "first_differing_batch": i,
+                        "kept": kept[i][:6] if i < len(kept) else None,
+                        "other": other[i][:6] if i < len(other) else None})
+            break
+    if problem is None and s_query(q) != before:
+        problem = ("batches() changed the query it was called on", {"before": before, "after": s_query(q)})
+    return kept, problem
+
+
 # ----------------------------------------------------------------------------- known-class predicates
 def pred_same_simple_key(a, b):
     """both operands of & carry the same plain key with non-empty value lists that differ as sets"""
@@ -164,6 +219,7 @@ class Gen:
     def __init__(self, chk, mod, enums):
         self.chk, self.rng, self.m, self.e = chk, chk.rng, mod, enums
         self.and_cases, self.anyof_cases, self.queries = [], [], []
+        self.snaps, self.changed = [], []
 
     # values
     def word(self):
@@ -245,14 +301,28 @@ class Gen:
         return q
 
     # expressions: every & and any_of application is recorded as a case
+    def snap(self, q, how):
+        """remember what a query looks like when it is built; re-checked at the end of the run"""
+        if len(self.snaps) < 4000:
+            self.snaps.append((q, how, s_query(q), v_params(q)))
+
     def do_and(self, a, b):
+        sa, sb = s_query(a), s_query(b)
         q = a & b
+        if (s_query(a), s_query(b)) != (sa, sb):
+            self.changed.append(("& changed an operand", {"a": sa, "b": sb}))
         self.and_cases.append((a, b, q))
+        self.snap(q, "a & b")
         return q
 
     def do_anyof(self, ops):
+        so = [s_query(o) for o in ops]
         res = impl_call(lambda: self.m.BugQuery.any_of(*ops), kinds=KINDS)
+        if [s_query(o) for o in ops] != so:
+            self.changed.append(("any_of changed an operand", {"operands": so}))
         self.anyof_cases.append((ops, res))
+        if not isinstance(res, Err):
+            self.snap(res, "any_of")
         return res
 
     def chart_expr(self, depth):
@@ -683,10 +753,17 @@ def main(chk: Check):
         full = boundary_query(kind, ids, pkgs)
         for d in (-1, 0, 1):
             batch_inputs.append((full, base, base + exact + d))
-    batch_cases, batch_fail = [], []
+    corpus = load_corpus()
+    batch_inputs = [(build_query(m, c["query"]), c.get("base_length", 0), c.get("max_length", m.MAX_URL_LENGTH))
+                    for c in corpus if c.get("kind") == "batches"] + batch_inputs
+    batch_cases, batch_fail, lifetime_fail = [], [], []
     for q, base, mx in batch_inputs:
         s = s_query(q)
-        res = impl_call(lambda: [[[str(k), str(v)] for k, v in b.params()] for b in q.batches(base, mx)])
+        res = impl_call(lambda: observe_batches(q, base, mx))
+        if not isinstance(res, Err):
+            res, problem = res
+            if problem is not None:
+                lifetime_fail.append((s, base, mx, problem))
         batch_cases.append((cpair(c_query(s), cZ(base), cZ(mx)),
                             res if isinstance(res, Err) else [digest(b) for b in res]))
         if isinstance(res, Err):
@@ -699,8 +776,15 @@ def main(chk: Check):
             batch_fail.append((s, base, mx, r))
     chk.count("batches", len(batch_cases))
     b0 = batch_inputs[0]
-    chk.sample({"stream": "batches", "query": "ids(900000..900399)", "base": b0[1], "max": b0[2],
+    chk.sample({"stream": "batches", "query": _brief(s_query(b0[0])), "base": b0[1], "max": b0[2],
                 "impl_batch_sizes": [sum(e[3] if len(e) == 4 else 1 for e in b) for b in batch_cases[0][1]]})
+    chk.count("batches-lifetime", 3 * len(batch_inputs))
+    # queries built earlier in this run must still look the same (no state shared between objects)
+    for q, how, s0, p0 in g.snaps:
+        if s_query(q) != s0 or v_params(q) != p0:
+            g.changed.append((f"a query built by {how} changed after it was built",
+                              {"built": s0, "now": s_query(q), "params_built": p0[:8], "params_now": v_params(q)[:8]}))
+    chk.count("snapshots", len(g.snaps))
 
     # ---- evaluate model and spec inside Coq
     QB = "list (str * list str)"
@@ -754,6 +838,15 @@ def main(chk: Check):
                                                    "reference evaluator on a probe bug (Spec_C37.spec_anyof_ok)",
                                            "input": {"operands": so, "bugs": bugs},
                                            "implementation": anyof_cases[i][1]})
+    for s, base, mx, (what, detail) in lifetime_fail:
+        prop_fail += 1
+        if prop_fail <= 6:
+            chk.violation("property", {"what": "batches(): " + what,
+                                       "input": {"query": s, "base_length": base, "max_length": mx},
+                                       "detail": detail})
+    for what, detail in g.changed[:3]:
+        prop_fail += 1
+        chk.violation("property", {"what": what, "input": detail})
     for s, base, mx, (what, detail, axinfo) in batch_fail:
         ex = {"query": _brief(s), "base_length": base, "max_length": mx, **detail}
         if axinfo and axinfo[0] is not None and what.startswith("a batch exceeds") \
@@ -799,16 +892,8 @@ def replay(chk, data):
     d = data.get("detail", {})
     inp = d.get("input")
 
-    def mk_chart(c):
-        if c[0] == "G":
-            from pkgcore.bugzilla.enums import Join
-            return m.ChartGroup(Join(c[1]), tuple(mk_chart(x) for x in c[2]))
-        return m.Criterion(c[1], c[2], tuple(c[3]), negate=c[4], splittable=c[5])
-
     def mk(s):
-        return m.BugQuery(simple=tuple((k, tuple(v)) for k, v in s["simple"]),
-                          charts=tuple(mk_chart(c) for c in s["charts"]),
-                          limit=s["limit"], offset=s["offset"], order=s["order"])
+        return build_query(m, s)
 
     if isinstance(inp, dict) and "a" in inp and "b" in inp:
         print("impl params(a & b):", (mk(inp["a"]) & mk(inp["b"])).params())
@@ -816,8 +901,10 @@ def replay(chk, data):
         print("impl any_of:", impl_call(lambda: m.BugQuery.any_of(*[mk(o) for o in inp["operands"]]).params()))
     elif isinstance(inp, dict) and "query" in inp:
         q = mk(inp["query"])
-        bs = list(q.batches(inp.get("base_length", 0), inp.get("max_length", m.MAX_URL_LENGTH)))
-        print("impl batches: n=%d encoded lengths=%s" % (len(bs), [len(urllib.parse.urlencode(b.params())) for b in bs][:20]))
+        kept, problem = observe_batches(q, inp.get("base_length", 0), inp.get("max_length", m.MAX_URL_LENGTH))
+        print("impl batches (kept from list()): n=%d encoded lengths=%s" % (
+            len(kept), [len(urllib.parse.urlencode(b)) for b in kept][:20]))
+        print("lifetime problem:", problem)
     elif isinstance(inp, dict) and "simple" in inp:
         print("impl params:", mk(inp).params())
     print("expected by spec / model: see 'what' above; theorems: coq/C37/Prop_C37.v")
